@@ -128,6 +128,18 @@ func (m *M) Event(e Ev) Obs {
 		if br.r.Interrupted {
 			continue
 		}
+		if m.AsIs {
+			// known deviation: at most once, never withdraws the host
+			if m.boundaryFired[br.b.ID] {
+				continue
+			}
+			m.boundaryFired[br.b.ID] = true
+			m.obs.Fired = append(m.obs.Fired, br.b.ID)
+			nt := m.newToken(br.r.Tok.Scope, "", br.b.ID)
+			nt.Cohort = br.r.Tok.Cohort
+			m.leave(nt, br.b)
+			continue
+		}
 		m.obs.Fired = append(m.obs.Fired, br.b.ID)
 		if br.b.CancelAct {
 			// interrupting: the activity's token continues on the exception flow
@@ -141,6 +153,17 @@ func (m *M) Event(e Ev) Obs {
 	}
 	for _, sr := range srels {
 		if sr.sc.interrupted || sr.sc.SubTok == nil {
+			continue
+		}
+		if m.AsIs {
+			if m.boundaryFired[sr.b.ID] {
+				continue
+			}
+			m.boundaryFired[sr.b.ID] = true
+			m.obs.Fired = append(m.obs.Fired, sr.b.ID)
+			nt := m.newToken(sr.sc.Parent, "", sr.b.ID)
+			nt.Cohort = sr.sc.SubTok.Cohort
+			m.leave(nt, sr.b)
 			continue
 		}
 		m.obs.Fired = append(m.obs.Fired, sr.b.ID)
